@@ -52,6 +52,15 @@ func (g *Gen) zeroInit(st *State, r string, t types.Type) {
 	switch u := t.Underlying().(type) {
 	case *types.Struct:
 		tn := g.W.typeName(t)
+		for _, gf := range g.W.db.Ghosts {
+			if gf.Owner == tn {
+				gt := g.W.mustType(gf.Type)
+				s := sortOf(gt)
+				name := "G!" + tn + "!" + gf.Name
+				a := g.arr(st.heap, name, s)
+				g.assignArr(st.heap, name, s, fmt.Sprintf("(store %s %s %s)", a, r, g.zeroOf(gt)))
+			}
+		}
 		for i := 0; i < u.NumFields(); i++ {
 			fl := u.Field(i)
 			if _, isStruct := fl.Type().Underlying().(*types.Struct); isStruct {
@@ -599,6 +608,13 @@ func (f *frame) binop(x *ssa.BinOp, st *State) bool {
 				o = a
 			}
 			t = fmt.Sprintf("(= (s-arr %s) 0)", o.T)
+		} else if at, ok := x.X.Type().Underlying().(*types.Array); ok && at.Len() <= 16 {
+			// Go compares arrays element by element (SMT array equality would also look outside the bounds)
+			var cs []string
+			for k := int64(0); k < at.Len(); k++ {
+				cs = append(cs, fmt.Sprintf("(= (select %s %d) (select %s %d))", a.T, k, b.T, k))
+			}
+			t = and(cs...)
 		} else {
 			t = fmt.Sprintf("(= %s %s)", a.T, b.T)
 		}
@@ -665,6 +681,7 @@ func (f *frame) convert(x *ssa.Convert, st *State) bool {
 		g.declareFun("runeStr", []string{"Int"}, "Str")
 		g.axiomOnce("runeStr", "(forall ((r Int)) (! (=> (and (<= 0 r) (< r 128)) (and (= (slen (runeStr r)) 1) (= (sat (runeStr r) 0) r))) :pattern ((runeStr r))))")
 		g.axiomOnce("runeStr2", "(forall ((r Int)) (! (and (<= 1 (slen (runeStr r))) (<= (slen (runeStr r)) 4)) :pattern ((runeStr r))))")
+		g.classClosure()
 		f.setReg(x, "(runeStr "+v.T+")")
 	case from == "Str" && to == "Slice":
 		g.declareFun("strBytes", []string{"Str"}, "Int")
